@@ -7,9 +7,13 @@ CHECK = {
     "entries": [
         {"fn": P + "vC27_order", "replay": "model-only", "cover_optional": ("dead-lettered",)},
         {"fn": P + "vC27_close", "replay": "model-only"},
+        {"fn": P + "vC27_fullQueue", "replay": "model-only", "cover_optional": ("second-accepted",)},
+        {"fn": P + "vC27_oneCoalescer", "replay": "model-only",
+         "opts": {"substitute": dict(SUB, **{P + "newCoalescer": P + "vC27_newCoalescer", "(*" + P + "client).NetClient": P + "vC27_netClient"})}},
     ],
     "opts": {"rounds": 3, "unwind": 4, "unwind_mode": "assume", "feasibility": False, "substitute": SUB},
-    "stop": list(SUB.keys()),
+    "stop": list(SUB.keys()) + [P + "newCoalescer", "(*" + P + "client).NetClient"],
+    "timeout_ms": {"quick": 600000, "thorough": 1800000},
     "explanation": "coalescer.submit/run (flush, drainReady)/close under solver-chosen interleavings of a caller, the writer goroutine and a closer; the transport (net.Client.SendProto) is substituted by a recorder that delivers or fails whole batches; errHandler records dead letters.",
     "bounds": {"threads": "caller (2 messages), writer, closer", "rounds": 3, "maxBatch": "2 and 1"},
 }
